@@ -1,6 +1,6 @@
 #!/venv/bin/python
 """Generate the TLC configurations of the core spec (one family per property). Run from spec/core."""
-ALL = ["CreateGroup", "CreateObject", "AddData", "AddVisual", "CreateWithUid", "Rename", "SetFlag", "SetVal", "SetMeta", "Move", "MoveSame", "AddToGroup",
+ALL = ["CreateGroup", "CreateObject", "AddData", "AddVisual", "AddComment", "AddFile", "CreateWithUid", "Rename", "SetFlag", "SetVal", "SetMeta", "Move", "MoveSame", "AddToGroup",
        "AddDataFails", "StripOpt", "SaveAs", "Helper", "Copy2", "Remove2", "ScrubData", "CreateDeferred", "PGWithUid",
        "RemoveFromGroup", "RemovePG", "RemoveViaWorkspace", "RemoveViaParent", "DropRef", "Collect", "Purge",
        "LookupDead", "Copy", "Close", "Open", "CallClosed"]
@@ -30,14 +30,17 @@ def minus(*drop):
 
 
 GC = ["DropRef", "Collect", "Purge", "LookupDead"]
-NEW = ["AddVisual", "SetMeta", "MoveSame", "AddDataFails", "StripOpt", "SaveAs", "Helper", "Copy2", "Remove2", "ScrubData", "CreateDeferred", "PGWithUid"]
+NEW = ["AddComment", "AddFile", "AddVisual", "SetMeta", "MoveSame", "AddDataFails", "StripOpt", "SaveAs", "Helper", "Copy2", "Remove2", "ScrubData", "CreateDeferred", "PGWithUid"]
 BASE = minus("CreateWithUid", "CallClosed", *NEW)
 # --- C01: histories of create/assign/rename/move/copy/delete with close/re-open and GC points
-cfg("C01_quick", 1, 1, 1, 1, [a for a in BASE if a != "SetFlag"] + ["MoveSame", "CreateDeferred"], 6, names=("a",), vals=(1, 2))
+cfg("C01_quick", 1, 1, 1, 1, [a for a in BASE if a != "SetFlag"] + ["MoveSame", "CreateDeferred", "AddDataFails"], 6, names=("a",), vals=(1, 2))
 # property-group bookkeeping under list removals, in both orders (data in overlapping groups)
 cfg("C01pg_quick", 0, 1, 3, 2, ["CreateObject", "AddData", "AddToGroup", "ScrubData", "RemoveFromGroup", "Close", "Open"], 8,
     names=("a", "b"), vals=(1,))
 cfg("C01_thorough", 2, 1, 2, 1, BASE + ["MoveSame", "AddDataFails", "SaveAs", "CreateDeferred", "SetMeta"], 5, names=("a", "b"))
+# comments and attached files on groups and objects through create / copy / remove / re-open
+cfg("C01cf_quick", 1, 1, 3, 1, ["CreateGroup", "CreateObject", "AddComment", "AddFile", "AddData", "Copy", "Move", "RemoveViaWorkspace",
+                                "RemoveViaParent", "Close", "Open", "Collect", "DropRef"], 6, names=("a",), vals=(1,))
 # --- C02: layout of every closed file: removals, re-parenting, copies, failed writes, closes
 C02A = ["CreateGroup", "CreateObject", "AddData", "Move", "MoveSame", "AddToGroup", "RemoveViaWorkspace", "RemoveViaParent",
         "Copy", "Close", "Open", "AddDataFails"] + GC
